@@ -48,12 +48,22 @@ def own_sender_slot(P):
     from ..core.facts import callee_path, callee_name
     fn = P.fn('ExternalGroup::propose')
     r = Res()
+    from ..core.facts import callee_resolved, module_private
     body = P.body(fn)
-    pos = body.calls_named(r'Iterator::(position|find|find_map|rposition)$')
-    if not pos:
+    # the lookup may live in propose itself or in a module-private helper it calls
+    hosts = [fn]
+    for bi, t in body.calls():
+        h = P.fns.get(callee_resolved(t)) or P.fns.get(callee_path(t))
+        if h is not None and h is not fn and module_private(h) and h['loc'].startswith('mls-rs/src/external_client/'):
+            hosts.append(h)
+    hosts = [h for h in hosts if P.body(h).calls_named(r'Iterator::(position|find|find_map|rposition)$')]
+    if not hosts:
         raise AnchorMissing('ExternalGroup::propose no longer searches the external senders list')
     found = False
-    for k in [fn['key']] + P.closures_of(fn['key']):
+    keys = []
+    for h in hosts:
+        keys += [h['key']] + P.closures_of(h['key'])
+    for k in keys:
         b2 = P.body(P.fns[k])
         o2 = Origins(b2)
         for bi, t in b2.calls():
